@@ -26,6 +26,7 @@ def is_acquire(s: ast.stmt):
 
 def check(ctx):
     repo = ctx.repo
+    ctx.rule("R15.10", "the final frame is written exactly once, also when the run is cancelled at a step that was just saved (shared with C05 R05.9)", 2)
     ctx.rule("R15.9", "an error in the update or in the recorder is never swallowed: every handler in the solver / operator / recorder modules "
                       "that does not re-raise is one of the confirmed ones (refused psi update, name retry, cancellation)", 4)
     ctx.rule("R15.8", "the partial solution can be assembled from a file with zero recorded steps: every aggregation of a "
@@ -46,6 +47,13 @@ def check(ctx):
     from ..effects import fresh_outputs, input_purity
     fresh_outputs(ctx, "R15.6", "after Ctrl-C inside update() the Runner writes (or keeps) the previous step's state, part of which has already been overwritten by the abandoned step: the file's last frame is not the state of any step")
     input_purity(ctx, "R15.7", modules=("tdgl.solver", "tdgl.finite_volume"), min_functions=60, consequence='an update() abandoned by an interrupt has already modified the arrays of the previous state that the Runner goes on to save')
+    from ..report import Shared
+    from . import c05
+    frs_ = repo.func(RUNNER, "Runner._run_stage")
+    cfg_, ev_, _p, _pr, _v = c05.typestate(frs_)
+    c05.final_step_saved_once(Shared(ctx, {"R05.9": "R15.10"},
+                                     consequence="a run cancelled inside the update of a step that was just saved holds that frame twice (the second one with "
+                                                 "an empty record): the file has one frame more than was recorded before the stop"), frs_, cfg_, ev_)
     swallowed_errors(ctx)
     empty_records(ctx)
     ctx.assume("h5py.File.close() flushes; the OS honours exclusive creation")
